@@ -19,14 +19,14 @@ import (
 
 // c13Case is one fault placement.
 type c13Case struct {
-	Kind    string `json:"kind"` // none | dial | status | stall-before | stall-mid | stop | midbody | tcp-cl | tcp-chunked | tcp-rst | unassigned-midbody
-	Err     string `json:"err,omitempty"`
-	Offset  int    `json:"offset"`
-	Gzip    bool   `json:"gzip,omitempty"`
-	Status  int    `json:"status,omitempty"`
-	Mode    string `json:"mode"` // direct | tcp   (Prometheus side)
-	Big     bool   `json:"big,omitempty"`
-	Chunk   int    `json:"chunk,omitempty"`
+	Kind   string `json:"kind"` // none | dial | status | stall-before | stall-mid | stop | midbody | tcp-cl | tcp-chunked | tcp-rst | unassigned-midbody
+	Err    string `json:"err,omitempty"`
+	Offset int    `json:"offset"`
+	Gzip   bool   `json:"gzip,omitempty"`
+	Status int    `json:"status,omitempty"`
+	Mode   string `json:"mode"` // direct | tcp   (Prometheus side)
+	Big    bool   `json:"big,omitempty"`
+	Chunk  int    `json:"chunk,omitempty"`
 }
 
 var c13Body = []byte("# HELP http_requests_total The total number of HTTP requests.\n# TYPE http_requests_total counter\n" +
